@@ -409,6 +409,148 @@ def persistent_cells(repo):
     return res
 
 
+# ---------------------------------------------------------------- how cache keys are stored
+KEY_ATTRS = {'_PolyHelper': ('poly_order',), '_PolyHelper2D': ('poly_order', 'max_cross'),
+             'SplineBasis': ('num_knots', 'spline_degree'), 'SplineBasis2D': ('num_knots', 'spline_degree')}
+KEY_FILES = ['pybaselines/_algorithm_setup.py', 'pybaselines/two_d/_algorithm_setup.py',
+             'pybaselines/_spline_utils.py', 'pybaselines/two_d/_spline_utils.py']
+COPYING_CALLS = {'array', 'int', 'float', 'tuple', 'bool', 'copy', 'deepcopy', 'astype', 'full', 'list'}
+RANK = ['KConst', 'KCopy', 'KCheckedScalar', 'KChecked2D', 'KRaw', 'KUnknown']
+
+
+def worst(kinds):
+    kinds = list(kinds)
+    return max(kinds, key=RANK.index) if kinds else 'KUnknown'
+
+
+class KeyStores:
+    """Classifies the right-hand side of every `self.<key attribute> = ...` in the cache classes: a constant, a
+    copy / scalar conversion, the result of _check_scalar_variable (scalar: an immutable numpy scalar; two_d=True:
+    possibly the CALLER'S OWN array, because np.asarray does not copy), or a raw argument.  Names are resolved through
+    their bindings in the enclosing function and, for parameters of the cache classes' methods, through the argument
+    expressions at their call sites in the anchored modules (depth <= 3)."""
+
+    def __init__(self, repo):
+        self.trees = {rel: _parse(rel, repo)[0] for rel in KEY_FILES}
+        self.funcs = []    # (rel, class name or None, FunctionDef)
+        for rel, tree in self.trees.items():
+            for node in tree.body:
+                if isinstance(node, ast.ClassDef):
+                    for fn in node.body:
+                        if isinstance(fn, ast.FunctionDef):
+                            self.funcs.append((rel, node.name, fn))
+                elif isinstance(node, ast.FunctionDef):
+                    self.funcs.append((rel, None, node))
+
+    def classify(self, expr, cls, fn, depth=0):
+        if depth > 3:
+            return 'KUnknown'
+        if isinstance(expr, ast.Constant):
+            return 'KConst'
+        if isinstance(expr, ast.UnaryOp) and isinstance(expr.operand, ast.Constant):
+            return 'KConst'
+        if isinstance(expr, (ast.List, ast.Tuple)):
+            return 'KCopy'
+        if isinstance(expr, ast.Call):
+            f = expr.func
+            name = f.id if isinstance(f, ast.Name) else f.attr if isinstance(f, ast.Attribute) else ''
+            if name == '_check_scalar_variable':
+                two_d = [k.value for k in expr.keywords if k.arg == 'two_d']
+                if not two_d or (isinstance(two_d[0], ast.Constant) and two_d[0].value is False):
+                    return 'KCheckedScalar'
+                return 'KChecked2D'
+            if name in COPYING_CALLS:
+                return 'KCopy'
+            return 'KUnknown'
+        if isinstance(expr, ast.Name):
+            return self.classify_name(expr.id, cls, fn, depth)
+        return 'KUnknown'
+
+    def classify_name(self, name, cls, fn, depth):
+        params = [a.arg for a in fn.args.args]
+        binds = []      # (value expr, guarded by `if name is not None`)
+        def visit(stmts, guarded):
+            for st in stmts:
+                if isinstance(st, ast.Assign) and any(isinstance(t, ast.Name) and t.id == name for t in st.targets):
+                    binds.append((st.value, guarded))
+                elif isinstance(st, ast.Assign) and any(name in [n.id for n in ast.walk(t) if isinstance(n, ast.Name)]
+                                                        for t in st.targets if not isinstance(t, ast.Name)
+                                                        and isinstance(t, (ast.Tuple, ast.List))):
+                    binds.append((None, guarded))
+                elif isinstance(st, ast.If):
+                    g = src(st.test) == f'{name} is not None'
+                    visit(st.body, guarded or g)
+                    visit(st.orelse, False)
+                elif isinstance(st, (ast.For, ast.While, ast.With, ast.Try)):
+                    for field in ('body', 'orelse', 'finalbody'):
+                        visit(getattr(st, field, []) or [], False)
+        visit(fn.body, False)
+        kinds = [self.classify(v, cls, fn, depth + 1) if v is not None else 'KUnknown' for v, _ in binds]
+        if name in params:
+            unconditional = any(not g and v is not None for v, g in binds) and all(
+                isinstance(st, ast.Assign) for st in fn.body[:0])
+            top_level = [st for st in fn.body if isinstance(st, ast.Assign)
+                         and any(isinstance(t, ast.Name) and t.id == name for t in st.targets)]
+            if top_level:
+                return worst(kinds)           # rebound unconditionally at the top level of the function
+            if binds and all(g for _, g in binds):
+                return worst(kinds)           # rebound whenever it is not None
+            kinds.append(self.classify_param(name, cls, fn, depth))
+        return worst(kinds)
+
+    def classify_param(self, name, cls, fn, depth):
+        if cls not in KEY_ATTRS:
+            return 'KRaw'                    # a _setup_* / public entry point: whatever the caller passed
+        idx = [a.arg for a in fn.args.args].index(name)
+        kinds = []
+        home = [r for r, c, f in self.funcs if f is fn][0]
+        for rel, c2, f2 in self.funcs:
+            if ('two_d' in rel) != ('two_d' in home):
+                continue                      # 1-D and 2-D classes share method names
+            for call in [n for n in ast.walk(f2) if isinstance(n, ast.Call)]:
+                f = call.func
+                hit = (fn.name == '__init__' and isinstance(f, ast.Name) and f.id == cls) or \
+                      (fn.name != '__init__' and isinstance(f, ast.Attribute) and f.attr == fn.name)
+                if not hit:
+                    continue
+                pos = idx - 1                 # drop self
+                arg = None
+                if pos < len(call.args):
+                    arg = call.args[pos]
+                for k in call.keywords:
+                    if k.arg == name:
+                        arg = k.value
+                if arg is None:
+                    default_i = idx - (len(fn.args.args) - len(fn.args.defaults))
+                    kinds.append('KConst' if default_i >= 0 else 'KUnknown')
+                else:
+                    kinds.append(self.classify(arg, c2, f2, depth + 1))
+        return worst(kinds) if kinds else 'KRaw'
+
+    def stores(self):
+        out = []
+        for rel, cls, fn in self.funcs:
+            if cls not in KEY_ATTRS:
+                continue
+            for st in ast.walk(fn):
+                if isinstance(st, ast.Assign):
+                    for t in st.targets:
+                        for sub in (t.elts if isinstance(t, (ast.Tuple, ast.List)) else [t]):
+                            if isinstance(sub, ast.Attribute) and isinstance(sub.value, ast.Name) and sub.value.id == 'self' \
+                                    and sub.attr in KEY_ATTRS[cls]:
+                                kind = 'KUnknown' if isinstance(t, (ast.Tuple, ast.List)) else self.classify(st.value, cls, fn)
+                                out.append((cls, sub.attr, fn.name, kind))
+                elif isinstance(st, (ast.AugAssign, ast.AnnAssign)) and isinstance(st.target, ast.Attribute) \
+                        and isinstance(st.target.value, ast.Name) and st.target.value.id == 'self' \
+                        and st.target.attr in KEY_ATTRS[cls]:
+                    out.append((cls, st.target.attr, fn.name, 'KUnknown'))
+        for cls, attrs in KEY_ATTRS.items():
+            for a in attrs:
+                if not any(o[0] == cls and o[1] == a for o in out):
+                    raise TranslateError(f'{cls}.{a}: no assignment found')
+        return sorted(out)
+
+
 def gen_c03(repo):
     rows = []
     for dim, files, prefix, cls, setup in ((1, FILES_1D, 'pybaselines/', '_Algorithm', 'pybaselines/_algorithm_setup.py'),
@@ -445,6 +587,11 @@ def gen_c03(repo):
     lines.append('(* every attribute assigned through `self` in the classes whose instances live across calls *)')
     lines.append('Definition gen_cells : list (string * list string) := [')
     lines.append(';\n'.join('  ("%s", [%s])' % (c, '; '.join('"%s"' % a for a in attrs)) for c, attrs in persistent_cells(repo)))
+    lines.append('].')
+    lines.append('')
+    lines.append('(* how every cache-key attribute is stored: (class, attribute, method, kind of the assigned value) *)')
+    lines.append('Definition gen_key_stores : list (string * string * string * kstore) := [')
+    lines.append(';\n'.join('  ("%s", "%s", "%s", %s)' % st for st in KeyStores(repo).stores()))
     lines.append('].')
     return '\n'.join(lines) + '\n'
 
